@@ -92,7 +92,7 @@ def run_pair(pb, o, faults):
     nsub = int(m.group(1)) if m else -1
     m = re.search(r"-number of period:\s*(\d+)", ra["out"])
     nper = int(m.group(1)) if m else -1
-    info.update(rejected=rejected, injected=injected, instants=len(inst))
+    info.update(rejected=rejected, injected=injected, instants=len(inst), missed_end=g.has_missed_end_signature(inst))
     # ---- A's own book-keeping
     for x, y in zip(inst, inst[1:]):
         if not y > x:
@@ -177,8 +177,22 @@ def case_strategy():
         lambda t: {"pb": t[0], "opt": t[1]["opt"], "faults": t[1]["faults"]})
 
 
+KNOWN_MISSED_END = "C50.end_of_period_missed.short_period_substepped"
+
+
+def keyed(r, info, o):
+    """known class (findings/pending/C50.json, same defect as C48's): without dynamic time step scaling, A accepted a
+    sub-step a few ulp before a requested time and then stepped beyond it (two accepted instants closer than
+    1e-13 |t|): whatever is observed afterwards (difference with B, B rejecting the too close times) is that finding"""
+    if r is not None and not r.ok and info.get("missed_end") and not o.get("dynamic"):
+        r.msg = "[%s] %s" % (r.key, r.msg)
+        r.key = KNOWN_MISSED_END
+    return r
+
+
 def check_case(case):
     r, info = run_pair(case["pb"], case["opt"], case["faults"])
+    r = keyed(r, info, case["opt"])
     if r is not None:
         return r
     classes = list(info["classes"])
@@ -227,6 +241,7 @@ def enumeration_points(tier_all):
 def check_enum_case(c):
     P, opts = fixed_problems()
     r, info = run_pair(P[c["problem"]], opts[c["options"]], c["faults"])
+    r = keyed(r, info, opts[c["options"]])
     if r is not None:
         return r
     return Result(True, nontrivial=bool(info.get("state_to_restore") and info.get("inelastic")),
@@ -274,6 +289,8 @@ if __name__ == "__main__":
     except RuntimeError as e:
         print("C50: cannot build the behaviour library: %s" % e)
         sys.exit(2)
-    run_enumeration()
+    if SEED < 1000 or SEED % 1000 == 0:
+        # the enumeration is deterministic: of the shards of a thorough run (seed*1000+k) only the first one runs it
+        run_enumeration()
     g.run_hypothesis_batched(U, "random", case_strategy(), check_case, max_examples=param("cases", 40), batch=param("batch", 6))
     sys.exit(U.finish())
